@@ -264,8 +264,8 @@ PROPS["C01"]["explanation"] += " (SPECIALFIRST) generic H-layer routines rewrite
 PROPS["C16"]["rules"] = PROPS["C16"]["rules"] + [rules_ref.rule_ext_offset]
 PROPS["C16"]["explanation"] = PROPS["C16"]["explanation"].replace(" Not decided: whether", " (EXTOFF) the retry that HXPwrite performs after a failed write seeks to the same `posn + extern_offset` as the first attempt. Not decided: whether")
 
-PROPS["C08"]["rules"] = PROPS["C08"]["rules"] + [rules_ref.rule_shared_access_monotone]
-PROPS["C08"]["explanation"] += " (MONO) re-attaching a Vgroup that is already attached (nattach > 0) combines the old access mode with the requested one and never overwrites it, so an earlier write handle is not silently downgraded."
+PROPS["C08"]["rules"] = PROPS["C08"]["rules"] + [rules_ref.rule_shared_access_monotone, rules_ref.rule_classless_counted]
+PROPS["C08"]["explanation"] += " (CLASSLESS) both enumeration modes of Vgetvgroups count a Vgroup without a class as user-created. (MONO) re-attaching a Vgroup that is already attached (nattach > 0) combines the old access mode with the requested one and never overwrites it, so an earlier write handle is not silently downgraded."
 PROPS["C14"]["rules"] = PROPS["C14"]["rules"] + [rules_ref.rule_bitflush_mode, rules_ref.rule_access_from_mode]
 PROPS["C14"]["explanation"] += " (ACCMODE) each special-element start-access routine derives access_rec->access from the requested mode, and a chunk handed back to the cache as DIRTY counts as a write promise that needs a write-permission proof (F5B). (BITFLUSH) the bit-I/O layer writes its buffer back (HIbitflush) only on paths where the bitfile is in write *mode*; being opened with write *access* is not enough, a buffer filled by reading must never be written."
 PROPS["C05"]["rules"] = PROPS["C05"]["rules"] + [rules_ref.rule_bitflush_mode]
